@@ -36,7 +36,9 @@ Record Inv (e : env) (a : core) : Prop := mkInv {
            a_authorized a = creds_empty /\
            ((a_mech a = Some EXTERNAL /\ a_asked a = true /\ a_identity a = [] /\ a_cookie_id a = None /\ a_desired a = creds_empty) \/
             (a_mech a = Some COOKIE_SHA1 /\ (exists id, a_cookie_id a = Some id) /\
-             a_desired a = mkCreds (Some (e_process_uid e)) None None));
+             a_desired a = mkCreds (Some (e_process_uid e)) None None /\
+             (* the challenge on record is the one the random source produced for this attempt *)
+             (exists k raw, e_challenge e k = Some raw /\ e_best_key e k = a_cookie_id a /\ a_challenge a = hex_encode raw)));
   I_begin : a_state a = WaitingForBegin \/ a_state a = Authenticated ->
             exists m, a_mech a = Some m /\ established e m (a_authorized a)
 }.
@@ -133,15 +135,16 @@ Qed.
 Lemma Inv_intro_data_cookie e b id :
   a_state b = WaitingForData -> a_mech b = Some COOKIE_SHA1 -> permitted e COOKIE_SHA1 -> a_authorized b = creds_empty ->
   a_cookie_id b = Some id -> a_desired b = mkCreds (Some (e_process_uid e)) None None ->
+  (exists k raw, e_challenge e k = Some raw /\ e_best_key e k = a_cookie_id b /\ a_challenge b = hex_encode raw) ->
   a_failures b < max_failures -> (a_have_keyring b = true -> e_keyring_ok e = true) -> Inv e b.
 Proof.
-  intros Hs Hm Hp Ha Hc Hd Hf Hk. constructor; try (rewrite Hs; intros; try discriminate).
+  intros Hs Hm Hp Ha Hc Hd Hch Hf Hk. constructor; try (rewrite Hs; intros; try discriminate).
   - intros G. lia.
   - lia.
   - exact Hk.
   - intros m' X. rewrite Hm in X. inversion X; subst; exact Hp.
   - intros X. exact Hm.
-  - split; [assumption|]. right. repeat split; try assumption. exists id; assumption.
+  - split; [assumption|]. right. split; [assumption|]. split; [exists id; assumption|]. split; assumption.
   - destruct H; discriminate.
 Qed.
 
@@ -286,9 +289,10 @@ Proof.
   assert (Hk : e_keyring_ok e = true).
   { destruct (a_have_keyring a2) eqn:X; [destruct P2; auto|]. cbn [negb andb] in E4. destruct (e_keyring_ok e); [reflexivity|discriminate]. }
   fs. destruct P2.
-  destruct (e_best_key e (a_nchal a2)) as [id|].
-  - destruct (e_challenge e (a_nchal a2)) as [raw|].
+  destruct (e_best_key e (a_nchal a2)) as [id|] eqn:Ebk.
+  - destruct (e_challenge e (a_nchal a2)) as [raw|] eqn:Ech.
     + fs. eapply Inv_intro_data_cookie with (id := id); fs; auto.
+      exists (a_nchal a2), raw. auto.
     + apply Inv_send_rejected; fs; auto; try lia.
   - apply Inv_send_rejected; fs; auto; try lia.
 Qed.
@@ -393,7 +397,7 @@ Proof.
   - destruct (a_state a) eqn:Hs; try discriminate.
     destruct (a_mech a) as [m|] eqn:Hm; [|apply Inv_crash; exact I].
     pose proof (not_end_lt e a I Hend) as Hlt. pose proof I as I'. destruct I.
-    destruct (I_data0 Hs) as (Ha & [(M & Hq & Hi & Hc & Hd)|(M & [id Hc] & Hd)]).
+    destruct (I_data0 Hs) as (Ha & [(M & Hq & Hi & Hc & Hd)|(M & [id Hc] & Hd & _)]).
     + assert (m = EXTERNAL) by congruence. subst m.
       apply Inv_process_data; auto.
       * constructor; auto. congruence.
